@@ -846,7 +846,8 @@ def nearest_segment_selection(P, rep, rule="K.nearest"):
 def segment_blend(P, rep, rule="I1.segment"):
     """down-dip blend of the two ends of a segment, and what the models are handed"""
     rep.rule(rule, "SubductingPlate/Fault::properties: a local U + f*(D - U) whose U and D are the section-interpolated values of components [0] and "
-                   "[1] of one segment table (start and end of the segment) uses f = the fraction along the segment; the length limit and the "
+                   "[1] of one segment table (start and end of the segment) uses f = the fraction along the segment; in the inside test the bounds "
+                   "of the distance from the plane depend on both fractions and the bound of the distance along it on the section fraction; the "
                    "AdditionalParameters handed to the models are such interpolated locals, never a feature-wide field")
     n = 0
     for cls in LINE.values():
@@ -892,7 +893,6 @@ def segment_blend(P, rep, rule="I1.segment"):
             td = norm.render(P, decls[Dn["r"]]["c"][0], nocast=True).replace(" ", "")
             if not (uses(decls[A["r"]]["c"][0], secf) and uses(decls[Dn["r"]]["c"][0], secf)):
                 continue
-            n += 1
             inst = "%s: %s = %s" % (short, d.get("n"), norm.render(P, e, nocast=True)[:80])
             problems = []
             if tu.replace("[0]", "[#]") != td.replace("[1]", "[#]") or "[0]" not in tu or "[1]" not in td:
@@ -905,6 +905,71 @@ def segment_blend(P, rep, rule="I1.segment"):
                               key="%s|%s|%s" % (rule, cls, d.get("n")), witness="a segment whose thickness or top truncation has two different values, point midway down the segment")
             else:
                 rep.ok(rule, inst, F.nloc(d), F.qn)
+        # the inside test: whatever bounds the distance from the plane follows both fractions, whatever bounds the distance along it
+        # follows the fraction between the sections (dependence through initialisers, call arguments included)
+        from .guard import expand_cond
+        role_of = {}
+        for k_, d_ in decls.items():
+            t_ = norm.render(P, d_["c"][0], nocast=True).replace(" ", "")
+            if re.match(r"^[\w.]+\.distance_from_plane$", t_):
+                role_of[k_] = "across"
+            elif re.match(r"^[\w.]+\.distance_along_plane$", t_):
+                role_of[k_] = "along"
+
+        def closure(e):
+            seen, todo = set(), [y["r"] for y in F.walk(e) if y.get("k") == "DeclRefExpr" and y.get("r") in decls]
+            while todo:
+                k_ = todo.pop()
+                if k_ in seen:
+                    continue
+                seen.add(k_)
+                todo += [y["r"] for y in F.walk(decls[k_]["c"][0]) if y.get("k") == "DeclRefExpr" and y.get("r") in decls]
+            return seen
+        gate = None
+        for x in F.walk():
+            if x.get("k") == "IfStmt":
+                c_ = expand_cond(P, F, x["c"][0])
+                ks = {y.get("r") for y in F.walk(c_) if y.get("k") == "DeclRefExpr"}
+                if any(role_of.get(k_) == "across" for k_ in ks) and any(role_of.get(k_) == "along" for k_ in ks) \
+                        and any(k_ in decls and role_of.get(k_) is None for k_ in ks):
+                    gate = (x, c_)
+                    break
+        if gate is None:
+            rep.unknown(rule, "%s: inside test on the two plane distances not found" % short)
+        else:
+            conj = []
+
+            def split(c):
+                c = sc(c)
+                if c.get("k") == "BinaryOperator" and c.get("op") == "&&":
+                    split(c["c"][0])
+                    split(c["c"][1])
+                elif c.get("k") == "UnaryOperator" and c.get("op") == "!" and sc(c["c"][0]).get("k") == "BinaryOperator" and sc(c["c"][0]).get("op") == "||":
+                    split(sc(c["c"][0])["c"][0])
+                    split(sc(c["c"][0])["c"][1])
+                else:
+                    conj.append(c)
+            split(gate[1])
+            for which, need in (("across", (secf, segf)), ("along", (secf,))):
+                cs = [c for c in conj if any(y.get("k") == "DeclRefExpr" and role_of.get(y.get("r")) == which for y in F.walk(c))]
+                bound_conj = [c for c in cs if any(y.get("k") == "DeclRefExpr" and y.get("r") in decls and role_of.get(y["r"]) is None for y in F.walk(c))]
+                if not bound_conj:
+                    rep.unknown(rule, "%s: no bound on the distance %s the plane in the inside test" % (short, which))
+                    continue
+                n += 1
+                missing = []
+                for c in bound_conj:        # every bound on its own
+                    cl = closure(c)
+                    missing += [P.d(k_).get("n") for k_ in need if k_ not in cl and P.d(k_).get("n") not in missing]
+                inst = "%s: bounds of the distance %s the plane (%s)" % (short, which, "; ".join(norm.render(P, c, nocast=True)[:50] for c in bound_conj))
+                if missing:
+                    rep.violation(rule, inst + " do not depend on %s" % ", ".join(missing), F.nloc(gate[0]), F.qn, norm.render(P, gate[1])[:160],
+                                  "the feature's extent does not vary %s as the segment table prescribes" % (
+                                      "down the segment" if roles["segment_fraction"] in missing else "between the two neighbouring sections"),
+                                  key="%s|%s|%s-dep" % (rule, cls, which),
+                                  witness="a segment whose thickness or top truncation has two different values, point midway down the segment")
+                else:
+                    rep.ok(rule, inst + " follow %s" % " and ".join(P.d(k_).get("n") for k_ in need), F.nloc(gate[0]), F.qn)
         # what the models receive
         for x in F.walk():
             if x.get("k") == "VarDecl" and "AdditionalParameters" in (x.get("t") or "") and x.get("c"):
